@@ -56,46 +56,35 @@ def r2(ctx, rep):
     rep.rule("C09.R2", "quoting is total and uses the dialect's identifier quote", floor=4)
     syn = ctx.syn
     f = syn.fn("gen_expr::translate_ident_part", crate="prqlc")
-    m = None
-    for mm in matches_of(f["body"]):
-        if "ident_quoting_style()" in show(mm["e"]):
-            m = mm
-    if m is None:
-        raise AnchorMissing("translate_ident_part: match on ident_quoting_style()")
-    rows = {last_seg(str(pat_head(a["pat"]))): a for a in m["arms"]}
-    c = rows.get("ConditionallyQuoted")
-    # truth table over (matches the bare class, is a keyword): bare output exactly for (true, false); formula, local names and branch order are free
+    # decision table over (quoting style of the dialect, matches the bare class, is a keyword): bare output exactly for (Conditionally, true, false).
+    # The function body is evaluated (boolfn.leaf): formula, local names, branch order, one match or two are free.
     import alpha
     import boolfn
     A = alpha.Inliner(f)
     prm = f["params"][0]["name"] if f.get("params") and isinstance(f["params"][0], dict) and "name" in f["params"][0] else "ident"
-    ok = False
-    if c is not None:
-        for i in walk(c["body"]):
-            if i.get("k") != "if" or i.get("e") is None:
-                continue
-            rows_ok = []
-            try:
-                for bare in (True, False):
-                    for kw in (True, False):
-                        def atom(t, bare=bare, kw=kw):
-                            t = t.replace(" ", "")
-                            if t == f"valid_ident().is_match(&{prm})":
-                                return bare
-                            if t == f"keywords::is_keyword(&{prm},&ctx.dialect_enum)":
-                                return kw
-                            return None
-                        taken = i["t"] if boolfn.ev(i["c"], atom, A) else i["e"]
-                        out = show(tail_expr(taken) if taken.get("k") == "block" else taken)
-                        want = f"sql_ast::Ident::new({prm})" if (bare and not kw) else f"sql_ast::Ident::with_quote(ctx.dialect.ident_quote(), {prm})"
-                        rows_ok.append(out == want)
-                ok = all(rows_ok)
-            except boolfn.Unknown:
-                ok = False
-    rep.check(ok, "conditional", "an identifier may be emitted bare only if it matches the bare class AND is not a keyword of the dialect; otherwise it must be quoted with the dialect's quote", file=f["file"], line=f["l"], fn=f["path"])
-    a = rows.get("AlwaysQuoted")
-    rep.check(a is not None and show(tail_expr(a["body"]) if a["body"].get("k") == "block" else a["body"]) == "sql_ast::Ident::with_quote(ctx.dialect.ident_quote(), ident)", "always",
-              "AlwaysQuoted dialects must quote every identifier", file=f["file"], line=f["l"], fn=f["path"])
+    res = {}
+    for style in ("ConditionallyQuoted", "AlwaysQuoted"):
+        rows_ok = []
+        try:
+            for bare in (True, False):
+                for kw in (True, False):
+                    def atom(t, bare=bare, kw=kw, style=style):
+                        t = t.replace(" ", "")
+                        if t == f"valid_ident().is_match(&{prm})":
+                            return bare
+                        if t == f"keywords::is_keyword(&{prm},&ctx.dialect_enum)":
+                            return kw
+                        if t == "ctx.dialect.ident_quoting_style()":
+                            return "IdentQuotingStyle::" + style
+                        return None
+                    out = show(boolfn.leaf(f["body"], atom, A))
+                    want = f"sql_ast::Ident::new({prm})" if (style == "ConditionallyQuoted" and bare and not kw) else f"sql_ast::Ident::with_quote(ctx.dialect.ident_quote(), {prm})"
+                    rows_ok.append(out == want)
+            res[style] = all(rows_ok)
+        except boolfn.Unknown:
+            res[style] = False
+    rep.check(res["ConditionallyQuoted"], "conditional", "an identifier may be emitted bare only if it matches the bare class AND is not a keyword of the dialect; otherwise it must be quoted with the dialect's quote", file=f["file"], line=f["l"], fn=f["path"])
+    rep.check(res["AlwaysQuoted"], "always", "AlwaysQuoted dialects must quote every identifier", file=f["file"], line=f["l"], fn=f["path"])
     # the quoted form: the name is handed unchanged to sqlparser's Ident::with_quote, whose Display uses the same
     # heuristic escaper as string literals (oracles/libs.json)
     import json as _json, os as _os
